@@ -607,3 +607,295 @@ def all_orders(names, k=None):
     """every ordered selection of k (default: all) of the names"""
     import itertools
     return [list(p) for p in itertools.permutations(names, len(names) if k is None else k)]
+
+
+# =========================================================================== round d (additive; nothing above is changed except the
+# three look-ups td_phi / td_breaks / td_shape_text, which now also know the smooth shapes below)
+# (1) SMOOTH TIME DEPENDENCE (seasonal forcing, a smooth pulse) and SHIFTED CLOCKS: a loss object whose initial time t0 is not 0 on
+#     a model whose rates depend on t.  The reference integrates in the real time, so a trajectory computed on an elapsed-time
+#     clock "because the system is autonomous" (seeded change C06-d1) is off whenever the model is not autonomous and t0 != 0.
+#     `shift_setup` moves t0, the observation times AND the window of a TD_CATALOGUE model by tau: the same problem at another place of
+#     the time axis (the model text contains the shifted numbers, the oracle's phi gets the shifted window).
+# (2) LARGE MODELS: num_state x num_param > 100 (staged progression chains with per-stage rates, a 4-patch SIR with coupling): what a
+#     size-dependent switch to another algorithm (seeded change C07-d1: gradient() -> adjoint() beyond 100 forward sensitivities) needs.
+# (3) SCALES: the catalogue's SIR at head counts (N = 1e6 .. 1e8, mass-action rate per person ~ 1e-9) - `fd_floor` tells the
+#     finite-difference oracle of C07 not to use its absolute step floor (0.05) on a parameter of size 1e-9.
+
+TD_SMOOTH_SHAPES = {
+    # seasonal forcing with period P = b - a (phase a), in [0, 1]
+    "seasonal": ("(1 + cos(2*pi*(t - {a})/{P}))/2", lambda t, a, b: 0.5 * (1.0 + math.cos(2.0 * math.pi * (t - a) / (b - a))), lambda a, b: [], "smooth"),
+    # sin^2 with period 2 (b - a)
+    "sine-squared": ("sin(pi*(t - {a})/{P})**2", lambda t, a, b: math.sin(math.pi * (t - a) / (b - a)) ** 2, lambda a, b: [], "smooth"),
+    # a smooth, aperiodic pulse centred in the window (never exactly zero)
+    "lorentz": ("1/(1 + ((t - {c})/{h})**2)", lambda t, a, b: 1.0 / (1.0 + ((t - 0.5 * (a + b)) / (0.5 * (b - a))) ** 2), lambda a, b: [], "smooth"),
+}
+TD_ALL_SHAPES = dict(TD_SHAPES, **TD_SMOOTH_SHAPES)
+T0_SHIFTS = [0.37, -1.75, 2.5, 7.0, 17.3, 30.0, 30.25, -13.2, 52.3, -50.0, 365.25, 1234.56, -400.6]
+
+
+def td_phi(shape, win):      # noqa: F811  (extends the definition above: same behaviour for the shapes it knew)
+    if shape == TD_AUTONOMOUS:
+        return lambda t: 0.0
+    f = TD_ALL_SHAPES[shape][1]
+    a, b = float(win[0]), float(win[1])
+    return lambda t: f(t, a, b)
+
+
+def td_breaks(shape, win):      # noqa: F811
+    if shape == TD_AUTONOMOUS:
+        return []
+    return [float(v) for v in TD_ALL_SHAPES[shape][2](float(win[0]), float(win[1]))]
+
+
+def td_shape_text(shape, win):      # noqa: F811
+    a, b = float(win[0]), float(win[1])
+    return TD_ALL_SHAPES[shape][0].format(a=repr(a), b=repr(b), c=repr(0.5 * (a + b)), h=repr(0.5 * (b - a)), r=repr(0.25 * (b - a)), P=repr(b - a))
+
+
+def shift_setup(s, tau):
+    """the same problem moved by tau on the time axis: t0, observation times and (TD_CATALOGUE models) the window"""
+    tau = float(tau)
+    s["t0"] = float(s["t0"]) + tau
+    s["times"] = [float(v) + tau for v in s["times"]]
+    if s["model"]["src"] == "td":
+        s["model"] = dict(s["model"], win=[float(s["model"]["win"][0]) + tau, float(s["model"]["win"][1]) + tau])
+    s["shift"] = tau
+    return s
+
+
+def gen_setup_td_shifted(rng, name=None, shape=None, tau=None, smooth_share=0.5):
+    """a time-dependent catalogue model (window shapes and smooth shapes; not `early`, whose text assumes t0 = 0) with the clock moved"""
+    if shape is None:
+        shape = rng.choice(sorted(TD_SMOOTH_SHAPES)) if rng.random() < smooth_share else rng.choice([k for k in sorted(TD_SHAPES) if k != "early"])
+    if name is None:
+        name = rng.choice([k for k in sorted(TD_CATALOGUE) if TD_CATALOGUE[k]["windowed"] is not None])
+    s = gen_setup_td(rng, name=name, shape=shape)
+    return shift_setup(s, rng.choice(T0_SHIFTS) if tau is None else tau)
+
+
+# ---- large models ---------------------------------------------------------------------------------------------------------------
+
+def _chain_rhs(n, rate_of, extra=None):
+    """staged progression X0 -> X1 -> ... -> X(n-1); rate_of(i, th) = rate of the transition out of stage i"""
+    def rhs(t, x, th):
+        out = [0.0] * n
+        for i in range(n - 1):
+            fl = rate_of(i, th) * x[i]
+            out[i] -= fl
+            out[i + 1] += fl
+        if extra is not None:
+            extra(t, x, th, out)
+        return out
+    return rhs
+
+
+def _chain_bd_extra(t, x, th, out):
+    # th = k0..k8, mu, b : death at rate mu from every stage, constant inflow b into the first
+    for i in range(10):
+        out[i] -= th[9] * x[i]
+    out[0] += th[10]
+
+
+def _patch_rhs(t, x, th):
+    # 4 patches, states S0 I0 R0 S1 I1 R1 ...; th = beta0..beta3, gamma0..gamma3, c
+    out = [0.0] * 12
+    tot = x[1] + x[4] + x[7] + x[10]
+    for i in range(4):
+        S, I = x[3 * i], x[3 * i + 1]
+        inf = th[i] * S * (I + th[8] * (tot - I)) / 10.0
+        out[3 * i] = -inf
+        out[3 * i + 1] = inf - th[4 + i] * I
+        out[3 * i + 2] = th[4 + i] * I
+    return out
+
+
+def _large_catalogue():
+    cat = {}
+    # 11 stages x 10 per-stage rates = 110 forward sensitivities
+    n = 11
+    cat["chain11x10"] = dict(states=["X%d" % i for i in range(n)], params=["k%d" % i for i in range(n - 1)],
+                             transitions=[("T", "X%d" % i, "X%d" % (i + 1), "k%d*X%d" % (i, i)) for i in range(n - 1)],
+                             rhs=_chain_rhs(n, lambda i, th: th[i]), theta=[(0.8, 1.7)] * (n - 1), x0=[(30.0, 60.0)] + [(0.5, 2.0)] * (n - 1), T=(4.0, 9.0))
+    # 12 stages x 9 rates (the last transitions share one rate) = 108
+    n = 12
+    cat["chain12x9"] = dict(states=["Y%d" % i for i in range(n)], params=["r%d" % i for i in range(8)] + ["rc"],
+                            transitions=[("T", "Y%d" % i, "Y%d" % (i + 1), "%s*Y%d" % ("r%d" % i if i < 8 else "rc", i)) for i in range(n - 1)],
+                            rhs=_chain_rhs(n, lambda i, th: th[i] if i < 8 else th[8]), theta=[(0.8, 1.7)] * 9, x0=[(30.0, 60.0)] + [(0.5, 2.0)] * (n - 1), T=(4.0, 9.0))
+    # 14 stages x 8 rates (rate of stage i is q[i mod 8]) = 112
+    n = 14
+    cat["chain14x8"] = dict(states=["Z%d" % i for i in range(n)], params=["q%d" % i for i in range(8)],
+                            transitions=[("T", "Z%d" % i, "Z%d" % (i + 1), "q%d*Z%d" % (i % 8, i)) for i in range(n - 1)],
+                            rhs=_chain_rhs(n, lambda i, th: th[i % 8]), theta=[(0.8, 1.7)] * 8, x0=[(30.0, 60.0)] + [(0.5, 2.0)] * (n - 1), T=(5.0, 10.0))
+    # 10 stages x 11 parameters (9 rates, death rate, inflow) = 110
+    n = 10
+    cat["chain10x11"] = dict(states=["W%d" % i for i in range(n)], params=["k%d" % i for i in range(9)] + ["mu", "b"],
+                             transitions=[("T", "W%d" % i, "W%d" % (i + 1), "k%d*W%d" % (i, i)) for i in range(n - 1)] +
+                                         [("D", "W%d" % i, None, "mu*W%d" % i) for i in range(n)] + [("B", "W0", None, "b")],
+                             rhs=_chain_rhs(n, lambda i, th: th[i], _chain_bd_extra), theta=[(0.8, 1.7)] * 9 + [(0.05, 0.2), (1.0, 4.0)],
+                             x0=[(30.0, 60.0)] + [(0.5, 2.0)] * (n - 1), T=(4.0, 8.0))
+    # 4-patch SIR with coupling: 12 states x 9 parameters = 108
+    st = [v + str(i) for i in range(4) for v in ("S", "I", "R")]
+    tot = "(I0 + I1 + I2 + I3)"
+    tr = []
+    for i in range(4):
+        tr.append(("T", "S%d" % i, "I%d" % i, "beta%d*S%d*(I%d + c*(%s - I%d))/10" % (i, i, i, tot, i)))
+        tr.append(("T", "I%d" % i, "R%d" % i, "gamma%d*I%d" % (i, i)))
+    cat["patchSIR4"] = dict(states=st, params=["beta%d" % i for i in range(4)] + ["gamma%d" % i for i in range(4)] + ["c"], transitions=tr,
+                            rhs=_patch_rhs, theta=[(0.4, 1.0)] * 4 + [(0.1, 0.4)] * 4 + [(0.05, 0.3)],
+                            x0=[(6.0, 9.0), (0.5, 2.0), (0.2, 1.0)] * 4, T=(4.0, 9.0))
+    return cat
+
+
+LARGE_CATALOGUE = _large_catalogue()
+
+# ---- scales: head counts ---------------------------------------------------------------------------------------------------------
+SCALED_CATALOGUE = {
+    # pygom.common_models.SIR: beta S I / N with head counts
+    "SIR:N=1e6": dict(fn="SIR", states=["S", "I", "R"], params=["beta", "gamma", "N"], rhs=CATALOGUE["SIR"]["rhs"],
+                      theta=[(0.3, 0.9), (0.1, 0.4), (1e6, 1e6)], x0=[(9.0e5, 9.9e5), (1.0e3, 2.0e4), (1.0e2, 1.0e4)], T=(6.0, 14.0), hi=1e8),
+    "SIR:N=1e8": dict(fn="SIR", states=["S", "I", "R"], params=["beta", "gamma", "N"], rhs=CATALOGUE["SIR"]["rhs"],
+                      theta=[(0.3, 0.9), (0.1, 0.4), (1e8, 1e8)], x0=[(9.0e7, 9.9e7), (1.0e5, 2.0e6), (1.0e4, 1.0e6)], T=(6.0, 14.0), hi=1e10),
+    # pygom.common_models.SIR_norm on head counts: beta is the mass-action rate per person, ~ 5e-9
+    "SIR_norm:beta=5e-9": dict(fn="SIR_norm", states=["S", "I", "R"], params=["beta", "gamma"],
+                               rhs=lambda t, x, th: [-th[0] * x[0] * x[1], th[0] * x[0] * x[1] - th[1] * x[1], th[1] * x[1]],
+                               theta=[(3e-9, 9e-9), (0.1, 0.4)], x0=[(9.0e7, 9.9e7), (1.0e5, 2.0e6), (1.0e4, 1.0e6)], T=(6.0, 14.0), hi=1e10),
+}
+
+
+def _round_sig(v, k=5):
+    return float("%.*g" % (k, v))
+
+
+def _times(r, T, n):
+    if r.random() < 0.5:
+        return [round(T * (i + 1) / n, 6) for i in range(n)], "uniform"
+    times = []
+    for c_ in sorted(r.uniform(0.05, 1.0) for _ in range(n)):
+        v = round(T * c_, 6)
+        if not times or v > times[-1] + 1e-3:
+            times.append(v)
+    return times, "non-uniform"
+
+
+def gen_setup_large(rng, name=None, max_obs=3):
+    """a LARGE_CATALOGUE model (num_state x num_param > 100) + theta + x0 + grid + observed states"""
+    r = rng
+    name = name or r.choice(sorted(LARGE_CATALOGUE))
+    c = LARGE_CATALOGUE[name]
+    states, params = c["states"], c["params"]
+    theta = [round(r.uniform(*b), 4) for b in c["theta"]]
+    x0 = [round(r.uniform(*b), 4) for b in c["x0"]]
+    T = r.uniform(*c["T"])
+    times, grid = _times(r, T, r.randint(4, 8))
+    obs = r.sample(states, r.randint(1, max_obs))
+    return {"model": {"src": "large", "name": name}, "states": list(states), "params": list(params), "theta_true": theta,
+            "theta_eval": [round(v * r.uniform(0.8, 1.25), 4) for v in theta], "x0": x0, "x0_eval": [round(v * r.uniform(0.85, 1.2), 4) for v in x0],
+            "t0": 0.0, "times": times, "grid": grid, "obs": obs}
+
+
+def gen_setup_scaled(rng, name=None, max_obs=3):
+    """a SCALED_CATALOGUE model (head counts); `fd_floor` = 0: finite-difference steps are relative to the variable"""
+    r = rng
+    name = name or r.choice(sorted(SCALED_CATALOGUE))
+    c = SCALED_CATALOGUE[name]
+    states, params = c["states"], c["params"]
+    theta = [_round_sig(r.uniform(*b)) for b in c["theta"]]
+    x0 = [_round_sig(r.uniform(*b)) for b in c["x0"]]
+    T = r.uniform(*c["T"])
+    times, grid = _times(r, T, r.randint(3, 7))
+    obs = r.sample(states, r.randint(1, max_obs))
+    fixed = [k for k, b in zip(params, c["theta"]) if b[0] == b[1]]        # N is a constant of the model, not a free variable
+    return {"model": {"src": "scaled", "name": name}, "states": list(states), "params": list(params), "theta_true": theta,
+            "theta_eval": [v if k in fixed else _round_sig(v * r.uniform(0.8, 1.25)) for k, v in zip(params, theta)], "x0": x0,
+            "x0_eval": [_round_sig(v * r.uniform(0.85, 1.2)) for v in x0], "t0": 0.0, "times": times, "grid": grid, "obs": obs, "fd_floor": 0.0,
+            "fixed_params": fixed}
+
+
+def build_large(m, backend="lambda"):
+    from .. import bootstrap
+    bootstrap.init()
+    from pygom import SimulateOde, Transition
+    c = LARGE_CATALOGUE[m["name"]]
+    trans, bd = [], []
+    for tt, o, d, eq in c["transitions"]:
+        if tt == "T":
+            trans.append(Transition(origin=o, destination=d, equation=eq, transition_type="T"))
+        else:
+            bd.append(Transition(origin=o, equation=eq, transition_type=tt))
+    model = SimulateOde(list(c["states"]), list(c["params"]), transition=trans, birth_death=bd)
+    if backend == "lambda":
+        bootstrap.fast_backend(model)
+    return model, c["rhs"]
+
+
+def build_scaled(m, backend="lambda"):
+    from .. import bootstrap
+    bootstrap.init()
+    from pygom import common_models
+    c = SCALED_CATALOGUE[m["name"]]
+    model = getattr(common_models, c["fn"])()
+    if backend == "lambda":
+        bootstrap.fast_backend(model)
+    return model, c["rhs"]
+
+
+def build_model_any(setup, backend="lambda"):      # noqa: F811  (extends the definition above)
+    src = setup["model"]["src"]
+    if src == "td":
+        model, rhs = build_td(setup["model"], backend)
+        return model, rhs, None
+    if src == "large":
+        model, rhs = build_large(setup["model"], backend)
+        return model, rhs, None
+    if src == "scaled":
+        model, rhs = build_scaled(setup["model"], backend)
+        return model, rhs, None
+    return build_model(setup, backend)
+
+
+def box_any(setup):      # noqa: F811
+    m = setup["model"]
+    if m["src"] == "td":
+        return dict(lo=-1e-9, hi=100.0) if TD_CATALOGUE[m["name"]]["positive"] else dict(lo=None, hi=100.0)
+    if m["src"] == "large":
+        return dict(lo=-1e-9, hi=200.0)
+    if m["src"] == "scaled":
+        return dict(lo=-1e-3, hi=SCALED_CATALOGUE[m["name"]]["hi"])
+    return box(setup)
+
+
+def ref_traj_any(setup, rhs, theta, x0, t0, times, **bx):      # noqa: F811
+    m = setup["model"]
+    if m["src"] == "td" and m["shape"] != TD_AUTONOMOUS and td_breaks(m["shape"], m["win"]):
+        return ref_traj_td(rhs, theta, x0, t0, times, td_breaks(m["shape"], m["win"]), **bx)
+    if m["src"] == "large":
+        bx = dict(bx, max_evals=bx.get("max_evals", 120000))
+    return ref_traj(rhs, theta, x0, t0, times, **bx)
+
+
+def scipy_lsoda_off(rhs, theta, x0, t0, times, ref_tr, tol=1e-8):
+    """is scipy's own lsoda (scipy.integrate.ode, pygom's tolerances 1e-10, the oracle's right-hand side, NO pygom) off the DOP853
+    reference by more than tol (1 + |ref|) on this instance, or does it refuse?  Asked only when a wrong value is about to be
+    reported.  Observed: far from the time origin scipy's integrators now and then are silently wrong on one particular step (see
+    C02); a right-hand side that is exactly zero at x0 until a time window opens (zero initial state, zero rate) lets lsoda grow its
+    step without bound and stride over the whole window.  Where scipy itself is wrong the assumption 'the solver approximates the
+    flow' fails on the instance and there is nothing to judge."""
+    import warnings
+    import scipy.integrate as si
+    th = [float(v) for v in theta]
+    try:
+        with warnings.catch_warnings():
+            warnings.simplefilter("ignore")
+            r = si.ode(lambda t, x: rhs(t, x, th)).set_integrator("lsoda", nsteps=10000, atol=1e-10, rtol=1e-10)
+            r.set_initial_value(np.array(x0, float), float(t0))
+            rows = []
+            for t in times:
+                if float(t) != r.t:
+                    r.integrate(float(t))
+                    if not r.successful():
+                        return True
+                rows.append(np.array(r.y, float))
+        a = np.array(rows)
+        return bool(not np.all(np.isfinite(a)) or np.max(np.abs(a - ref_tr) / (1.0 + np.abs(ref_tr))) > tol)
+    except Exception:
+        return True
